@@ -49,8 +49,9 @@ def board(dealer: str, declarer: Optional[str], extra: int = 0, winners: int = 0
         b = dict(dealer=dealer, vul=vul, passed_out=True, n_calls=4, declarer=None, winners=WINNERS[0], alerts=tuple(alerts))
     else:
         k = (SEATS.index(declarer) - SEATS.index(dealer)) % 4
-        b = dict(dealer=dealer, vul=vul, passed_out=False, n_calls=k + 4 + extra, declarer=declarer, winners=list(WINNERS[winners]),
-                 alerts=tuple(alerts))
+        n_calls = k + 4 + extra
+        b = dict(dealer=dealer, vul=vul, passed_out=False, n_calls=n_calls, declarer=declarer, winners=list(WINNERS[winners]),
+                 alerts=tuple(a if a >= 0 else n_calls + a for a in alerts))        # a negative index counts from the end: -2 = a closing pass
     if illegal_at is not None:
         b['illegal_at'] = illegal_at
     return b
@@ -104,10 +105,10 @@ def family(tier: str) -> List[tuple]:
         for d in SEATS:
             out.append((dict(boards=[board(d, None, vul=VULS[n % 4])]), POLICIES[(n * 3) % len(POLICIES)]))
             n += 1
-        ref = [board('W', 'S', 1, 2, 'EW', alerts=(0,)), board('N', None, vul='BOTH'), board('E', 'E', 0, 4, 'NS')]
+        ref = [board('W', 'S', 1, 2, 'EW', alerts=(0, -1)), board('N', None, vul='BOTH'), board('E', 'E', 0, 4, 'NS')]
         for pol in ('rr', 'stall:main', 'rush:main', 'stall:T', 'stall:client', 'rand:1', 'lifo', 'stall:T3'):
             out.append((dict(boards=ref), pol))
-        out.append((dict(boards=[board('S', None, vul='NS'), board('W', 'N', 2, 1, 'NONE')]), 'rand:2'))
+        out.append((dict(boards=[board('S', None, vul='NS'), board('W', 'N', 2, 1, 'NONE', alerts=(0, -2))]), 'rand:2'))        # an alerted closing pass
         out.append((dict(boards=[board('E', 'W', 0, 3, 'BOTH'), board('E', None, vul='EW')]), 'fifo'))
     return out
 
@@ -670,10 +671,12 @@ def run_family(chk, analysers: List[str], fam=None, jobs: int = 16) -> List[dict
     return res
 
 
-def record(chk, res: List[dict], rules_prefix=None):
+def record(chk, res: List[dict], rules_prefix=None, as_rule=None):
     """Feed the obligations of the abstract sessions into the check (failures are de-duplicated by construct)."""
     for r in res:
         for o in r['obs']:
+            if as_rule:
+                o.rule = as_rule
             if rules_prefix and not o.rule.startswith(rules_prefix):
                 continue
             if o.ok:
